@@ -425,9 +425,8 @@ class RaceWorld:
                 except Exception:  # pylint: disable=broad-except
                     pass
         del tasks
-        import gc
-
-        gc.collect()
+        # (no gc.collect() here: a full collection per race is quadratic over a long run; everything that must not run later has
+        # been closed explicitly above)
         self.clock.uninstall()
 
     # ---- bootstrap up to start_benchmark (deterministic prefix, not part of the explored schedule)
